@@ -39,10 +39,10 @@ Inductive rq_sbody :=
 | SB_clauses (paren : option (list N)) (items : list (rq_item rq_clause))     (* Some w: "(" w items ")" *)
 | SB_url (w : list N) (u : list N).                                            (* "@" w url *)
 Record rq_spelled := {
-  s_w0 : list N; s_name : list N; s_w1 : list N;
-  s_extras : option (list N * list (rq_item (list N)));                        (* "[" w items "]" *)
-  s_w2 : list N; s_body : rq_sbody; s_w3 : list N;
-  s_marker : option (list N) }.                                                (* ";" marker text (with its own whitespace) *)
+  rs_w0 : list N; rs_name : list N; rs_w1 : list N;
+  rs_extras : option (list N * list (rq_item (list N)));                        (* "[" w items "]" *)
+  rs_w2 : list N; rs_body : rq_sbody; rs_w3 : list N;
+  rs_marker : option (list N) }.                                                (* ";" marker text (with its own whitespace) *)
 
 Definition rq_body_text (b : rq_sbody) : list N :=
   match b with
@@ -51,10 +51,10 @@ Definition rq_body_text (b : rq_sbody) : list N :=
   | SB_url w u => 64 :: w ++ u
   end.
 Definition rq_render (sp : rq_spelled) : list N :=
-  s_w0 sp ++ s_name sp ++ s_w1 sp
-  ++ (match s_extras sp with None => [] | Some (w, items) => 91 :: w ++ rq_items_text (fun e => e) items ++ [93] end)
-  ++ s_w2 sp ++ rq_body_text (s_body sp) ++ s_w3 sp
-  ++ (match s_marker sp with None => [] | Some mt => 59 :: mt end).
+  rs_w0 sp ++ rs_name sp ++ rs_w1 sp
+  ++ (match rs_extras sp with None => [] | Some (w, items) => 91 :: w ++ rq_items_text (fun e => e) items ++ [93] end)
+  ++ rs_w2 sp ++ rq_body_text (rs_body sp) ++ rs_w3 sp
+  ++ (match rs_marker sp with None => [] | Some mt => 59 :: mt end).
 
 (* the known gap (D7): a "===" clause must not be directly followed by the comma - the token would swallow it *)
 Fixpoint rq_no_d7 (items : list (rq_item rq_clause)) : Prop :=
@@ -74,15 +74,15 @@ Definition rq_wf_body (b : rq_sbody) (marker : bool) (w3 : list N) : Prop :=
       (marker = true -> w3 <> [])                      (* a marker after a URL needs separating whitespace *)
   end.
 Definition rq_wf (sp : rq_spelled) (m : option (list elem)) : Prop :=
-  rq_blank (s_w0 sp) = true /\ rq_blank (s_w1 sp) = true /\ rq_blank (s_w2 sp) = true /\ rq_blank (s_w3 sp) = true /\
-  rq_valid_ident (s_name sp) = true /\
-  (match s_extras sp with
+  rq_blank (rs_w0 sp) = true /\ rq_blank (rs_w1 sp) = true /\ rq_blank (rs_w2 sp) = true /\ rq_blank (rs_w3 sp) = true /\
+  rq_valid_ident (rs_name sp) = true /\
+  (match rs_extras sp with
    | None => True
    | Some (w, items) => rq_blank w = true /\ Forall (fun i => rq_item_blank i = true /\ rq_valid_ident (rq_item_val i) = true) items
    end) /\
-  rq_wf_body (s_body sp) (match s_marker sp with Some _ => true | None => false end) (s_w3 sp) /\
+  rq_wf_body (rs_body sp) (match rs_marker sp with Some _ => true | None => false end) (rs_w3 sp) /\
   (* the marker text is a marker for the stand-alone marker parser, which reads it as m *)
-  (match s_marker sp, m with
+  (match rs_marker sp, m with
    | None, None => True
    | Some mt, Some m' => MText.parse_marker mt = Some m'
    | _, _ => False
@@ -90,10 +90,10 @@ Definition rq_wf (sp : rq_spelled) (m : option (list elem)) : Prop :=
 
 (* the parts the parse must recover *)
 Definition rq_sp_extras (sp : rq_spelled) : list (list N) :=
-  match s_extras sp with None => [] | Some (_, items) => map rq_item_val items end.
+  match rs_extras sp with None => [] | Some (_, items) => map rq_item_val items end.
 Definition rq_sp_clauses (sp : rq_spelled) : list rq_clause :=
-  match s_body sp with SB_clauses _ items => map rq_item_val items | SB_url _ _ => [] end.
-Definition rq_sp_url (sp : rq_spelled) : list N := match s_body sp with SB_url _ u => u | _ => [] end.
+  match rs_body sp with SB_clauses _ items => map rq_item_val items | SB_url _ _ => [] end.
+Definition rq_sp_url (sp : rq_spelled) : list N := match rs_body sp with SB_url _ u => u | _ => [] end.
 Definition rq_expected (sp : rq_spelled) (m : option (list elem)) : rq_parsed :=
-  {| pr_name := s_name sp; pr_url := rq_sp_url sp; pr_extras := rq_sp_extras sp;
+  {| pr_name := rs_name sp; pr_url := rq_sp_url sp; pr_extras := rq_sp_extras sp;
      pr_spec := rq_join [44] (map rq_clause_text (rq_sp_clauses sp)); pr_marker := m |}.
